@@ -3,8 +3,9 @@ package main
 // Family "dec": the built-in decorators that the fmt family does not reach
 // directly — the counters group (Counters*, Total*, Current*, InvertedCurrent*),
 // Elapsed / NewElapsed, AverageSpeed / NewAverageSpeed, AverageETA /
-// NewAverageETA, Spinner, Name, the conditional constructors and
-// OnCompleteOrOnAbort / OnCompleteMetaOrOnAbortMeta.
+// NewAverageETA, Spinner, Name, the conditional constructors,
+// OnCompleteOrOnAbort / OnCompleteMetaOrOnAbortMeta, NewMedian and the time
+// normalizers (FixedIntervalTimeNormalizer, MaxTolerateTimeNormalizer).
 //
 // Each case is self-checking against pieces the fmt family compares with the
 // extracted model (the size types under fmt verbs, the time producers, the
@@ -416,6 +417,76 @@ func runDecFamily(c *runCtx) error {
 			ts.Set(7)
 			if ts.Value() != 7 {
 				bad = append(bad, fmt.Sprintf("V thread-safe median after Set(7) has value %v", ts.Value()))
+			}
+			// the time normalizers of the ETA decorators only smooth: what they return is the estimate itself, or their previous
+			// answer counted down by the wall time since.  The first estimate and every estimate under a minute pass unchanged;
+			// FixedIntervalTimeNormalizer(n) counts down n times, then takes the estimate again; MaxTolerateTimeNormalizer(tol)
+			// counts down while the estimate is below its previous answer by at most tol
+			{
+				fixed := r.bool()
+				n := 1 + r.intn(4)
+				tol := time.Duration(1+r.intn(120)) * time.Second
+				var nz decor.TimeNormalizer
+				what := fmt.Sprintf("MaxTolerateTimeNormalizer(%v)", tol)
+				if fixed {
+					nz = decor.FixedIntervalTimeNormalizer(n)
+					what = fmt.Sprintf("FixedIntervalTimeNormalizer(%d)", n)
+				} else {
+					nz = decor.MaxTolerateTimeNormalizer(tol)
+				}
+				rem := time.Duration(2+r.intn(50)) * time.Hour
+				var prevOut time.Duration
+				cnt := 0
+				prevStart := time.Now()
+				for i := 0; i < 14; i++ {
+					sub := false
+					switch r.intn(7) {
+					case 0:
+						rem += time.Duration(r.intn(600)) * time.Second
+					case 1:
+						rem -= time.Duration(r.intn(3600)) * time.Second
+					case 2:
+						sub = true // the last minute
+					default:
+						rem -= time.Duration(r.intn(40)) * time.Second
+					}
+					if rem < 2*time.Minute {
+						rem = 2 * time.Minute
+					}
+					est := rem
+					if sub {
+						est = time.Duration(1+r.intn(60000)) * time.Millisecond
+					}
+					start := time.Now()
+					out := nz.Normalize(est)
+					upper := time.Since(prevStart) // at least the wall time between the two calls
+					prevStart = start
+					raw := i == 0 || est < time.Minute
+					if fixed {
+						if cnt == 0 {
+							raw = true
+						}
+						if raw {
+							cnt = n
+						} else {
+							cnt--
+						}
+					} else if !raw {
+						raw = est >= prevOut || prevOut-est > tol
+					}
+					switch {
+					case raw && out != est:
+						bad = append(bad, fmt.Sprintf("V %s: call %d with estimate %v (previous answer %v) returns %v, want the estimate itself", what, i+1, est, prevOut, out))
+					case !raw && prevOut-upper <= 0 && out == est:
+						// the countdown may have run out: the estimate itself is the answer then
+					case !raw && (out > prevOut || out < prevOut-upper):
+						bad = append(bad, fmt.Sprintf("V %s: call %d with estimate %v returns %v, want the previous answer %v counted down by the wall time since (at most %v)", what, i+1, est, out, prevOut, upper))
+					}
+					if len(bad) > 0 {
+						break
+					}
+					prevOut = out
+				}
 			}
 			cases.WriteString(fmt.Sprintf("M %d %d %q %v\n", k, len(frames), nm, cond))
 			report("misc", bad, false)
